@@ -307,14 +307,15 @@ def resumable (σ : State) : Option (Tid × State) :=
 def run : Nat → State → Tid → State
   | 0, σ, _ => { σ with err := some .fuel }
   | n+1, σ, t =>
-    match exec1 σ t with
-    | (σ', .cont) => run n σ' t
-    | (σ', .blocked) => σ'
-    | (σ', .error) => σ'
-    | (σ', _) =>
-      match resumable σ' with
+    let r := exec1 σ t
+    match r.2 with
+    | .cont => run n r.1 t
+    | .blocked => r.1
+    | .error => r.1
+    | .suspend | .done =>
+      match resumable r.1 with
       | some (b, σ'') => run n σ'' b
-      | none => σ'
+      | none => r.1
 
 def totalCode (σ : State) : Nat := (σ.tasks.map (fun T => T.code.length)).sum
 
